@@ -523,7 +523,90 @@ def r20_mut_self(text):
     return head + "\n        let mut self__ = self;" + "".join(out) + text[fp.body_close:], 1
 
 
+def r18b_hoist_question_mark(text):
+    """R18b: a `?` nested in a statement, `PREFIX EXPR? SUFFIX;`, where PREFIX evaluates nothing (it contains no
+    completed call: only `let`, paths, field places, `=` and the opening of enclosing calls) is hoisted:
+         `let q__N = match EXPR { Ok(v__) => v__, Err(e__) => return Err(From::from(e__)) }; PREFIX q__N SUFFIX;`
+    Evaluation order is unchanged because nothing in PREFIX is evaluated before EXPR."""
+    cnt = 0
+    while True:
+        m = L.mask(text)
+        found = False
+        for k in re.finditer(r"\?", m):
+            q = k.start()
+            # skip `?Sized` and statement-final `?` (R18 handles those)
+            if re.match(r"\?\s*;", m[q:]) or re.match(r"\?Sized", m[q:]):
+                continue
+            # EXPR: maximal postfix expression ending at q
+            j = q - 1
+            while j >= 0:
+                c = m[j]
+                if c in ")]":
+                    depth = 0
+                    while j >= 0:
+                        if m[j] in ")]}":
+                            depth += 1
+                        elif m[j] in "([{":
+                            depth -= 1
+                            if depth == 0:
+                                break
+                        j -= 1
+                    j -= 1
+                elif c.isalnum() or c in "_.:":
+                    j -= 1
+                elif c == ">" and m[j - 1] == ":" :
+                    j -= 1
+                else:
+                    break
+            es = j + 1
+            if es >= q:
+                continue
+            # statement start: scan back from EXPR, skipping balanced groups; unmatched openers belong to PREFIX
+            j = es - 1
+            while j >= 0:
+                c = m[j]
+                if c in ")]":
+                    depth = 0
+                    while j >= 0:
+                        if m[j] in ")]}":
+                            depth += 1
+                        elif m[j] in "([{":
+                            depth -= 1
+                            if depth == 0:
+                                break
+                        j -= 1
+                elif c in ";{}":
+                    break
+                j -= 1
+            st = L.skip_ws(m, j + 1)
+            prefix = m[st:es]
+            # PREFIX must not contain a completed call / closing bracket
+            if re.search(r"[)\]}]", prefix) or re.search(r"\b(if|match|while|for|return)\b", prefix):
+                continue
+            # statement end
+            e = q
+            while e < len(m) and m[e] != ";":
+                if m[e] in "([{":
+                    e = L.match_close(m, e)
+                elif m[e] in ")]}":
+                    pass
+                e += 1
+            if e >= len(m):
+                continue
+            cnt += 1
+            name = "q__%d" % cnt
+            expr = text[es:q]
+            new = ("let %s = match %s { Ok(v__) => v__, Err(e__) => return Err(From::from(e__)) };\n        " % (name, expr)
+                   + text[st:es] + name + text[q + 1:e + 1])
+            text = text[:st] + new + text[e + 1:]
+            found = True
+            break
+        if not found:
+            return text, cnt
+
+
 RULES = {
+    "R18b": r18b_hoist_question_mark,
     "R20": r20_mut_self,
     "R18": r18_question_mark,
     "R17": r17_continue_elimination,
